@@ -3,6 +3,7 @@ use serde_json::Value;
 
 pub mod c07;
 pub mod c09;
+pub mod c10;
 pub mod c11;
 pub mod c12;
 pub mod c14;
@@ -20,6 +21,7 @@ fn table(prop: &str) -> Option<(RunFn, ReplayFn)> {
     Some(match prop {
         "C07" => (c07::run, c07::replay),
         "C09" => (c09::run, c09::replay),
+        "C10" => (c10::run, c10::replay),
         "C11" => (c11::run, c11::replay),
         "C12" => (c12::run, c12::replay),
         "C14" => (c14::run, c14::replay),
